@@ -49,7 +49,7 @@ func (e *Engine) installStubs() {
 	S["verif:verifAssert"] = func(e *Engine, st *State, c *callInfo, a []Value) Value {
 		label := mustConcreteStr(a[1], "verifAssert label")
 		e.addObl(st, "assert", label, c.site, argTerm(a[0]))
-		st.assume(argTerm(a[0]))
+		st.assumeProved(argTerm(a[0]))
 		return nil
 	}
 	S["verif:verifReach"] = func(e *Engine, st *State, c *callInfo, a []Value) Value {
